@@ -13,8 +13,8 @@ ANCHORS = ['txtorcon/torcontrolprotocol.py', 'txtorcon/spaghetti.py']
 RULE = ('sessions generated adaptively against the real protocol: 1..10 commands (30% with per-line callback), replies of 0..5 '
         'mid/data-block parts + final line with 2xx/5xx codes over a text alphabet that imitates status lines, asynchronous 6xx events (nobody listening) between and before replies in a third of the sessions, submits interleaved at '
         'arbitrary byte positions, and submits made from inside the result callback of a command (queued behind what is waiting); each session is run in three segmentations (as generated, byte-wise, random cuts). '
-        'non-trivial = at least 2 commands and a reply with more than one line; distinct = distinct op lists')
-TRUSTED = ["Twisted LineOnlyReceiver framing modelled as a byte automaton (line ends when LF follows CR); MAX_LENGTH not modelled",
+        'plus a fixed corpus of replies with one line of 20 000 .. 2**20-1 bytes (whole, and in 4 KiB / 64 KiB pieces); non-trivial = at least 2 commands and a reply with more than one line; distinct = distinct op lists')
+TRUSTED = ["Twisted LineOnlyReceiver framing modelled as a byte automaton (line ends when LF follows CR); the model has no length limit: C01_max_length shows the source's MAX_LENGTH (regenerated) is at least the 2**20 the property names, and the corpus runs lines of up to 2**20-1 bytes, whole and in pieces",
            "Deferred callback order as observed through passive recording callbacks",
            "a submission made from inside a command's result callback is presented to the model and the spec as the submission that follows "
            "the bytes ending that command's reply (the model has no call stack); outputs of both are compared as one group"]
@@ -43,8 +43,22 @@ def tagger(case, impl):
 run_cases = ctlprop.make_run_cases(tagger)
 
 
+def long_line_case(n, piece):
+    """one reply whose first line is n bytes long (descriptors and `ns/all` come as such lines), delivered in pieces of `piece` bytes"""
+    text = 'md/all=' + ''.join('abcdefghijklmnopqrstuvwxyz0123456789 '[i % 37] for i in range(n - 11))
+    data = '250-%s\r\n250 OK\r\n' % text
+    case = {'acts': {}, 'debug': False, 'ops': [['submit', 1, 'GETINFO md/all', False], ['submit', 2, 'GETINFO version', False], ['bytes', data],
+                                               ['bytes', '250-version=0.4\r\n250 OK\r\n']],
+            'tls': {2: [['mid', 250, text], ['fin', 250, 'OK']], 3: [['mid', 250, 'version=0.4'], ['fin', 250, 'OK']]}}
+    if piece:
+        case = ctlprop.rechunk_pieces(case, piece)
+    return ctlprop.to_json_case(case)
+
+
 def corpus():
-    return []
+    # lines up to the longest the protocol accepts (MAX_LENGTH = 2**20, in the generated table as ctlMaxLength): whole and in pieces
+    m = _extract.CTL_MAX_LENGTH_EXPECTED
+    return [long_line_case(20000, 0), long_line_case(70000, 4096), long_line_case(m // 4, 65536), long_line_case(m - 1, 0), long_line_case(m - 1, 65536)]
 
 
 def gen_cases(rng, tier):
